@@ -80,7 +80,8 @@ class Run:
         self.defs.setdefault(str(var), []).extend(facts)
 
     def add_fact(self, tag, label, expr):
-        self.facts.append((tag, label, expr))
+        for e in _conjuncts(expr):
+            self.facts.append((tag, label, e))
 
     # -- hypothesis closure ----------------------------------------------------------------
     def closure(self, exprs):
@@ -141,8 +142,15 @@ class Run:
     def oblige(self, name, kind, goal, using=None, meta=None, extra_hyps=()):
         if isinstance(goal, SBool):
             goal = goal.e
-        if isinstance(goal, bool):
-            goal = z3.BoolVal(goal)
+        if isinstance(goal, (bool, np.bool_)):
+            goal = z3.BoolVal(bool(goal))
+        # a conjunction is split into one obligation per conjunct (small queries; the ideal back
+        # end needs single equalities)
+        conj = _conjuncts(goal)
+        if len(conj) > 1:
+            for i, g in enumerate(conj):
+                self.oblige(f"{name}[{i}]", kind, g, using=using, meta=dict(meta or {}), extra_hyps=extra_hyps)
+            return
         hyps = self.context(goal, using) + list(extra_hyps)
         if extra_hyps:
             hyps += self.closure(list(extra_hyps))
@@ -166,7 +174,19 @@ class Run:
         self.add_fact("safety", f"safe{n}", goal)
 
 
-_fc_cache = {}
+def _conjuncts(g):
+    out, stack = [], [g]
+    while stack:
+        x = stack.pop()
+        if z3.is_and(x):
+            stack.extend(reversed(x.children()))
+        elif z3.is_true(x):
+            continue
+        else:
+            out.append(x)
+    return out or [z3.BoolVal(True)]
+
+
 
 
 def free_consts(e, seen=None):
